@@ -32,6 +32,7 @@
 package main
 
 import (
+	"bytes"
 	"crypto/sha1"
 	"encoding/hex"
 	"encoding/json"
@@ -127,6 +128,29 @@ func generate(rng *vh.Rng, thorough bool, rep *vh.Report) []enc {
 			}
 		}
 		rep.Count("gen:" + typ)
+		// the decoded object must be the object that was encoded: its re-encoding is the input, byte for byte
+		if streamable(kind) {
+			var re []byte
+			var dec interface{}
+			if vh.Guard(func() { dec = decodeIn(kind, gio.NewDataInputX(b), b); re = reencodeAs(kind, typ, dec) }).OK() && re != nil {
+				rep.Count("equal:checked")
+				if !bytes.Equal(re, b) {
+					rep.Count("gen:reencode-differs:" + typ)
+					if !reencodeExempt[typ] && !strings.HasPrefix(kind, "udp:") {
+						rep.Fail("property", "decoded-differs:"+typ,
+							fmt.Sprintf("%s: the object decoded from a complete valid %d-byte encoding is not the object that was encoded (its re-encoding differs from the input at byte %d)", typ, len(b), firstDiff(re, b)),
+							replayCase{Mode: "equal", Kind: kind, Typ: typ, Hex: vh.Hex(b), N: len(b)})
+					}
+				}
+			}
+			if kind == "value" && dec != nil {
+				if bad := notContained(dec.(value.Value), b); bad != nil {
+					rep.Fail("property", "fabricated-bytes:"+typ,
+						fmt.Sprintf("%s: the decoded object holds the %d-byte text/blob %s, which occurs nowhere in the %d input bytes", typ, len(bad), vh.Clip(vh.Hex(bad), 40), len(b)),
+						replayCase{Mode: "equal", Kind: kind, Typ: typ, Hex: vh.Hex(b), N: len(b)})
+				}
+			}
+		}
 		if vh.Guard(func() { decodeFull(kind, b) }).OK() {
 			rep.Count("gen:full-decode-with-accessors-ok")
 		} else {
@@ -320,6 +344,74 @@ func generate(rng *vh.Rng, thorough bool, rep *vh.Report) []enc {
 	return encs
 }
 
+// types whose writer is not canonical on the decoded object (hash-ordered tables, derived fields):
+// C03 / C07 state what they carry; no byte-identical re-encoding is demanded of them here
+// (a composite may hold a CounterPack1; its children's types are checked on their own; the UDP packs
+// are normalised by Process() after Read — C07 states what they carry)
+var reencodeExempt = map[string]bool{"pack.CounterPack1": true, "pack.ServiceRec": true, "pack.CompositePack": true}
+
+func firstDiff(a, b []byte) int {
+	for i := 0; i < len(a) && i < len(b); i++ {
+		if a[i] != b[i] {
+			return i
+		}
+	}
+	if len(a) < len(b) {
+		return len(a)
+	}
+	return len(b)
+}
+
+// notContained returns a text / blob / key of the decoded value that is not a substring of the
+// input (nil if all are): no read may return bytes that were not in its input
+func notContained(v value.Value, in []byte) []byte {
+	chk := func(s []byte) []byte {
+		if len(s) > 0 && !bytes.Contains(in, s) {
+			return s
+		}
+		return nil
+	}
+	switch x := v.(type) {
+	case *value.TextValue:
+		return chk([]byte(x.Val))
+	case *value.BlobValue:
+		return chk(x.Val)
+	case *value.IP4Value:
+		return chk(x.Val)
+	case *value.TextArray:
+		for _, s := range x.Val {
+			if b := chk([]byte(s)); b != nil {
+				return b
+			}
+		}
+	case *value.ListValue:
+		for i := 0; i < x.Size(); i++ {
+			if b := notContained(x.Get(i), in); b != nil {
+				return b
+			}
+		}
+	case *value.MapValue:
+		ks := x.Keys()
+		for ks.HasMoreElements() {
+			k := ks.NextString()
+			if b := chk([]byte(k)); b != nil {
+				return b
+			}
+			if b := notContained(x.Get(k), in); b != nil {
+				return b
+			}
+		}
+	case *value.IntMapValue:
+		ks := x.Keys()
+		for ks.HasMoreElements() {
+			if b := notContained(x.Get(ks.NextInt()), in); b != nil {
+				return b
+			}
+		}
+	}
+	return nil
+}
+
 // ---------------------------------------------------------------- format-defined exceptions
 
 // exception reports whether the format defines the prefix b[:n] of this encoding as a complete
@@ -364,6 +456,7 @@ type prefixRes struct {
 	n     int
 	ok    bool
 	avail int32
+	hang  string
 }
 
 type replayCase struct {
@@ -474,7 +567,11 @@ func prefixSweep(env *vh.Env, rep *vh.Report, rng *vh.Rng, encs []enc) {
 			for _, n := range j.lens {
 				var avail int32
 				o := vh.Guard(func() { avail, _ = decodeFull(e.kind, e.b[:n]) })
-				rs = append(rs, prefixRes{j.e, n, o.OK(), avail})
+				hang := ""
+				if strings.HasPrefix(o.Panic, hangMarker) {
+					hang = strings.TrimPrefix(o.Panic, hangMarker)
+				}
+				rs = append(rs, prefixRes{j.e, n, o.OK(), avail, hang})
 			}
 			results[j.e] = rs
 		}(jobs[i])
@@ -552,6 +649,11 @@ func prefixSweep(env *vh.Env, rep *vh.Report, rng *vh.Rng, encs []enc) {
 		for k, r := range results[ei] {
 			rep.Case(e.typ+":"+hash8(e.b)+"@"+strconv.Itoa(r.n), r.n >= 1)
 			rep.Count("prefix:" + e.typ)
+			if r.hang != "" {
+				rep.Fail("property", r.hang+":hangs-after-failed-decode",
+					fmt.Sprintf("%s: after the lazy decode of the %d-byte prefix of a %d-byte encoding failed, calling %s (or another accessor) on the same object again never returns", e.typ, r.n, len(e.b), r.hang),
+					replayCase{Mode: "prefix", Kind: e.kind, Typ: e.typ, Hex: vh.Hex(e.b), N: r.n})
+			}
 			if !r.ok {
 				rep.Count("prefix-outcome:panic")
 				continue
@@ -715,6 +817,9 @@ func judgeHostile(env *vh.Env, rep *vh.Report, cases []hcase, res []hres, model 
 		rep.Count("hostile-class:" + r.class)
 		rc := replayCase{Mode: "hostile", Kind: c.Kind, Typ: c.Typ, Hex: c.Hex, What: c.What}
 		switch r.class {
+		case "hang":
+			rep.Fail("property", r.site+":hangs-after-failed-decode",
+				fmt.Sprintf("%s: after the lazy decode of a %d-byte corrupted input (%s) failed, calling %s (or another accessor) on the same object again never returns", c.Typ, n, c.What, r.site), rc)
 		case "fatal":
 			rep.Fail("property", "alloc:"+r.site,
 				fmt.Sprintf("%s: decoding a %d-byte corrupted input (%s) kills the process (fatal, not a recoverable panic) in %s under a 2 GiB address-space limit", c.Typ, n, c.What, r.site), rc)
@@ -919,6 +1024,13 @@ func runReplay(env *vh.Env, rep *vh.Report, self string) {
 		switch c.Mode {
 		case "stream":
 			replayStream(rep, c)
+		case "equal":
+			b := vh.UnHex(c.Hex)
+			var re []byte
+			rep.Case("replay-equal:"+c.Kind+":"+hash8(b), true)
+			if vh.Guard(func() { re = reencodeAs(c.Kind, c.Typ, decodeIn(c.Kind, gio.NewDataInputX(b), b)) }).OK() && re != nil && !bytes.Equal(re, b) {
+				rep.Fail("property", "decoded-differs:"+c.Typ, c.Typ+": the decoded object re-encodes to different bytes", c)
+			}
 		case "prefix":
 			b := vh.UnHex(c.Hex)
 			if c.N > len(b) {
